@@ -14,4 +14,12 @@ theorem nlz64_src (x : Nat) : Src.nlz64 x = nlz64 x := by
 
 theorem hllMerge_src (A B : Regs) (i : Nat) : Hll.merge A B i = Src.hllMergeCell (A i) (B i) := rfl
 
+/-- `hyperloglog._add` as translated from the source: the register index is `hash mod 2^p` and the
+    register becomes the max with the rank -/
+theorem hllAdd_src {K : Type} (p : Nat) (H : K → Nat) (R : Regs) (k : K) :
+    let r := Src.hllAdd (H k) (2 ^ p) p (R (hllIdx p (H k)))
+    r.1 = hllIdx p (H k) ∧ Hll.add p H R k (hllIdx p (H k)) = r.2 := by
+  unfold Src.hllAdd hllIdx Hll.add hllRank
+  simp only [Nat.and_two_pow_sub_one_eq_mod, nlz64_src, hllIdx, if_true, and_self]
+
 end Sketchnu.SrcHll
